@@ -160,6 +160,9 @@ def nullable_fields(FA, base, dd):
     return {x['name']: x['ty'] for x in adt['fields'] if not (x.get('tags') and x['tags'][0].startswith('array:'))}
 
 
+ITER_MAKERS = ('iter', 'into_iter', 'ones', 'zeros', 'ones_with_pos', 'zeros_with_pos')
+
+
 def rule_E(FA):
     out = []
     dd = derived_default_types(FA)
@@ -171,6 +174,8 @@ def rule_E(FA):
         entries = [f for f in FA.lib_fns(include_closures=False)
                    if f.get('_base') == struct and f['exported'] and not f['unsafe'] and f['name'] not in ('fmt',)]
         for e in entries:
+            # functions that hand out an iterator belong to the iterator property as well
+            props = PROPS_OF_BASE.get(struct, ['C04']) + (['C12'] if e['name'] in ITER_MAKERS else [])
             # specialise on every boolean const generic of the entry, also those only used by its callees
             cps = FA.const_params(e)
             import itertools
